@@ -470,7 +470,7 @@ func Main(args []string) int {
 	d := &driver{w: tr.NewWriter(*trace), rng: rand.New(rand.NewSource(*seed)), quick: *tier == "quick"}
 	defer d.w.Close()
 	jobs := []func(){
-		func() { d.algebra() },
+		func() { d.algebra(); d.traces() },
 		func() {
 			d.bgv(newBgv(bgv.ParametersLiteral{LogN: 10, LogQ: []int{56, 46}, LogP: []int{56}, PlaintextModulus: 97}), "bgv-2x8-gap")
 		},
